@@ -288,23 +288,24 @@ pub fn nests_of_depth(d: usize) -> Vec<Nest> {
     out
 }
 
-/// The sublanguage on which no listed finding can be triggered: no jump or return out of a try, no
-/// abrupt exit from a catch that has a finally pending.
+/// The sublanguage on which no listed finding can be triggered (the whole alphabet at present).
 fn trigger_free(m: &ModelRun) -> bool {
     m.events.is_empty()
 }
 
-pub const TRIGGERS: &[(&str, &str)] = &[
-    ("jump_out_of_try", "KF-C08-01"),
-    ("return_out_of_nested_try", "KF-C08-02"),
-    ("abrupt_exit_from_catch_with_finally", "KF-C08-03"),
-];
+/// (finding id, event in the model's own execution that triggers it).  Empty: every formerly listed
+/// C08 finding is repaired; the machinery stays for findings to come.
+pub const TRIGGERS: &[(&str, &str)] = &[];
 
 pub fn attribute(active: &[Finding], m: &ModelRun, obs: &proto::SnippetResult) -> Option<String> {
     // the earliest trigger event in the model's own execution decides
     let first = m.events.iter().filter(|e| TRIGGERS.iter().any(|(n, _)| *n == e.name)).min_by_key(|e| e.at)?;
     let id = TRIGGERS.iter().find(|(n, _)| *n == first.name).map(|(_, id)| *id)?;
     if !active.iter().any(|f| f.id == id) {
+        return None;
+    }
+    // none of the listed findings is a crash of the interpreter: a panic is never attributed
+    if matches!(obs.outcome, proto::Outcome::Panic { .. }) {
         return None;
     }
     // implementation and model must agree on everything printed before the trigger
